@@ -821,11 +821,27 @@ func c10r9(c *Ctx) {
 		return f.Name(), f.Name() == "TargetPort" || f.Name() == "Number"
 	}
 	n := 0
-	var scan func(f *ssa.Function, port ssa.Value, depth int)
-	scan = func(f *ssa.Function, port ssa.Value, depth int) {
+	var scan func(f *ssa.Function, port ssa.Value, cell bool, depth int)
+	scan = func(f *ssa.Function, port ssa.Value, cell bool, depth int) {
+		// cells holding the port (a parameter captured by a literal is spilled into one)
+		cells := map[ssa.Value]bool{}
+		if cell {
+			cells[port] = true
+		} else {
+			eachInstr(f, func(ins ssa.Instruction) {
+				if st, ok := ins.(*ssa.Store); ok && st.Val == port {
+					if al, ok := st.Addr.(*ssa.Alloc); ok {
+						cells[al] = true
+					}
+				}
+			})
+		}
 		isPort := func(v ssa.Value) bool {
 			for {
-				if v == port {
+				if v == port && !cell {
+					return true
+				}
+				if u, ok := v.(*ssa.UnOp); ok && u.Op == token.MUL && cells[u.X] {
 					return true
 				}
 				switch x := v.(type) {
@@ -862,13 +878,29 @@ func c10r9(c *Ctx) {
 				}
 				for k, a := range x.Call.Args {
 					if isPort(a) && k < len(callee.Params) {
-						scan(callee, callee.Params[k], depth-1)
+						scan(callee, callee.Params[k], false, depth-1)
+					}
+				}
+			case *ssa.MakeClosure:
+				// a literal that captures the port (e.g. the predicate of slices.ContainsFunc)
+				lit, ok := x.Fn.(*ssa.Function)
+				if !ok || depth == 0 {
+					return
+				}
+				for k, b := range x.Bindings {
+					if k >= len(lit.FreeVars) {
+						continue
+					}
+					if cells[b] {
+						scan(lit, lit.FreeVars[k], true, depth-1)
+					} else if isPort(b) {
+						scan(lit, lit.FreeVars[k], false, depth-1)
 					}
 				}
 			}
 		})
 	}
-	scan(fn, paramNamed(fn, "port"), 2)
+	scan(fn, paramNamed(fn, "port"), false, 3)
 	c.Check("needPerPortPassthroughFilterChain compares the port with the Sidecar ingress ports and the service targets", fn.Pos(), n >= 2,
 		"fewer than two comparisons of the port argument found")
 	c.Floor(3)
